@@ -291,6 +291,10 @@ Section WithSink.
       | Some (true, i) =>                                    (* Confirmed *)
         let (ls, le) := locate ltb_ buf (p + i) (p + i) in
         if Nat.eqb ls (length buf) then find_fast_loop fuel' buf (length buf)
+        else if lt_is_crlf (c_lt cfg) then
+          (* CRLF: a confirmed hit is re-verified on the stripped line *)
+          (if m_is_match M (without_terminator (c_lt cfg) (sub buf ls le)) then Some (Some (ls, le))
+           else find_fast_loop fuel' buf le)
         else Some (Some (ls, le))
       | Some (false, i) =>                                   (* Candidate *)
         let (ls, le) := locate ltb_ buf (p + i) (p + i) in
